@@ -201,6 +201,7 @@ func c04(c *Ctx) {
 	r := c.R
 	r.Explain = "C04 (io.ReadSeeker model): decides four structural necessary conditions over every reader type of package file — R4.1 a Seek commits a position only after it is known non-negative and rejects before-start targets with an error (all paths × all whence/offset, by induction on the invariant position>=0); R4.2 a Seek that moves the position drops the lazily built stream; R4.3 Read advances the position by exactly the count it returns; R4.4 every AsLargeBytes hands out a freshly allocated cursor. Not decided: that bytes equal the content, the end-relative length value, exact EOF position."
 	r.Rule("R4.1", "path-sensitive dataflow over Seek's CFG: at every return the position field is unchanged or holds a value proven >= 0 on that path (sign tests, len/copy, non-negative constants, sums of non-negatives, non-narrowing conversions); a negativity test on the prospective position leads only to error returns")
+	r.Rule("R4.13", "a boolean receiver field that Read both sets and branches on (an end-of-data / state gate derived from the position) is known false on every path of another method that stores the position field")
 	r.Rule("R4.2", "if Read lazily builds a stream field (store guarded by field==nil), every path of another method that stores the position field ends with that stream field nil")
 	r.Rule("R4.3", "on every path of Read returning a count n that may be non-zero, the position field is stored old+n with n the returned SSA value")
 	r.Rule("R4.6", "a Seek answers for the whence it was given: every path of a file reader's Seek to a return that may carry a nil error has branched on the whence parameter, or returns the results of an inner Seek that received (offset, whence) unchanged — a shortcut that looks only at the offset is wrong for two of the three origins")
@@ -232,6 +233,7 @@ func c04(c *Ctx) {
 				c.checkReadAdvance(rt, pf)
 			}
 			nLazy += c.checkInvalidate(rt)
+			c.checkGateFlags(rt)
 		}
 	}
 	r.Floor("R4.1", nSeekOwn, 2)
@@ -594,6 +596,123 @@ func (c *Ctx) checkInvalidate(rt *readerType) int {
 		}
 	}
 	return len(lazy)
+}
+
+// checkGateFlags implements R4.13: boolean state that Read derives from the position and consults before reading must be
+// dropped by every method that moves the position, on every path (a gate left standing makes Read answer for the old position).
+func (c *Ctx) checkGateFlags(rt *readerType) {
+	read := rt.read
+	posSet := map[*types.Var]bool{}
+	for _, p := range rt.pos {
+		posSet[p] = true
+	}
+	isBool := func(v *types.Var) bool {
+		b, ok := v.Type().Underlying().(*types.Basic)
+		return ok && b.Kind() == types.Bool
+	}
+	gates := map[*types.Var]bool{}
+	for _, fs := range recvFieldStores(read) {
+		if isBool(fs.field) && !posSet[fs.field] {
+			gates[fs.field] = true
+		}
+	}
+	// … and consulted by Read in a branch condition
+	loadOfGate := func(fn *ssa.Function, v ssa.Value) (*types.Var, bool) {
+		neg := false
+		for {
+			u, ok := v.(*ssa.UnOp)
+			if !ok {
+				return nil, false
+			}
+			if u.Op == token.NOT {
+				neg = !neg
+				v = u.X
+				continue
+			}
+			if u.Op == token.MUL {
+				if f := c.fieldOfAddr(fn, u.X); f != nil && gates[f] {
+					return f, neg
+				}
+			}
+			return nil, false
+		}
+	}
+	consulted := map[*types.Var]bool{}
+	for _, b := range read.Blocks {
+		if iff := core.BlockIf(b); iff != nil {
+			if f, _ := loadOfGate(read, iff.Cond); f != nil {
+				consulted[f] = true
+			}
+		}
+	}
+	for g := range gates {
+		if !consulted[g] {
+			delete(gates, g)
+		}
+	}
+	if len(gates) == 0 {
+		return
+	}
+	for _, m := range c.P.RepoFuncs {
+		if m == read || m.Synthetic != "" || core.RecvNamed(m) != rt.named {
+			continue
+		}
+		storesPos := false
+		for _, fs := range recvFieldStores(m) {
+			if posSet[fs.field] {
+				storesPos = true
+			}
+		}
+		if !storesPos {
+			continue
+		}
+		for g := range gates {
+			key := fmt.Sprintf("file.%s.%s/clears-gate:%s", rt.named.Obj().Name(), m.Name(), g.Name())
+			var bads []string
+			complete := core.EnumPaths(m, 2, 50000, func(path []*ssa.BasicBlock) {
+				state := "unknown"
+				moved := false
+				for i, b := range path {
+					for _, ins := range b.Instrs {
+						switch x := ins.(type) {
+						case *ssa.Store:
+							f := c.fieldOfAddr(m, x.Addr)
+							if f == g {
+								state = "set"
+								if k, ok := x.Val.(*ssa.Const); ok && k.Value != nil && k.Value.String() == "false" {
+									state = "false"
+								}
+							} else if f != nil && posSet[f] {
+								moved = true
+							}
+						case *ssa.Return:
+							if moved && state != "false" {
+								bads = append(bads, fmt.Sprintf("return at %s: position stored but the gate %s that Read consults is not known false", c.P.Pos(x.Pos()), g.Name()))
+							}
+						}
+					}
+					if i+1 < len(path) {
+						if cond, taken, ok := core.BranchTaken(b, path[i+1]); ok {
+							if f, neg := loadOfGate(m, cond); f == g {
+								if taken == neg {
+									state = "false"
+								} else if state != "false" {
+									state = "set"
+								}
+							}
+						}
+					}
+				}
+			})
+			if !complete {
+				c.R.Undecided("R4.13", key, c.P.Pos(m.Pos()), "path enumeration exceeded its bound")
+			} else if len(bads) > 0 {
+				c.R.Violate("R4.13", key, c.P.Pos(m.Pos()), uniqJoin(bads))
+			} else {
+				c.R.OK("R4.13", key, c.P.Pos(m.Pos()), "every path that moves the position leaves the gate false")
+			}
+		}
+	}
 }
 
 func nilable(t types.Type) bool {
